@@ -408,6 +408,61 @@ fn test_stress(c: &Stress) -> TestResult {
     Ok(Outcome::new(true).label_if(c.clones, "clones"))
 }
 
+// ---------------------------------------------------------------------------------------------
+// long uncontended runs
+
+#[derive(Clone, Debug, Serialize, Deserialize)]
+pub struct LongRun {
+    pub limit: u8,
+    /// tokens kept for the whole run (below the limit)
+    pub held: u8,
+    pub cycles: u16,
+    /// every n-th request goes through a fresh clone of the runner (0 = never)
+    pub clone_every: u8,
+    /// every n-th token is dropped only after the next one was obtained (0 = never; needs two free slots)
+    pub overlap_every: u8,
+}
+
+/// "A request for a token completes immediately when a slot is free and no earlier request is
+/// queued" - also the 129th, the 1000th ... in a row on the same runner.
+fn test_long(c: &LongRun) -> TestResult {
+    let limit = c.limit.max(1) as usize;
+    let held_n = (c.held as usize).min(limit - 1);
+    let cfg = syncdrv::config(64, limit);
+    let runner = cfg.async_runner();
+    let mut held = Vec::new();
+    let mut carry: Option<Token> = None;
+    for i in 0..(held_n + c.cycles as usize) {
+        let in_use = held.len() + carry.is_some() as usize;
+        let r2;
+        let r: &Runner = if c.clone_every != 0 && i % c.clone_every as usize == c.clone_every as usize - 1 {
+            r2 = runner.clone();
+            &r2
+        } else {
+            &runner
+        };
+        let mut f: Pin<Box<dyn Future<Output = Token> + '_>> = Box::pin(r.get_token());
+        let flag = FlagWaker::new(false);
+        let waker = Waker::from(flag.clone());
+        let mut cx = Context::from_waker(&waker);
+        let tok = match f.as_mut().poll(&mut cx) {
+            Poll::Ready(t) => t,
+            Poll::Pending => vfail!("c13-not-immediate", "request #{i} in a row on one runner: {in_use} of {limit} slots in use, nobody queued, but get_token did not complete on its first poll"),
+        };
+        drop(f);
+        if held.len() < held_n {
+            held.push(tok);
+        } else if c.overlap_every != 0 && i % c.overlap_every as usize == 0 && in_use + 1 < limit {
+            carry = Some(tok); // replaces (drops) the previous carried token after this one exists
+        } else {
+            carry = None;
+            drop(tok);
+        }
+        vensure!(held.len() + carry.is_some() as usize <= limit, "c13-limit-exceeded", "more tokens than the limit");
+    }
+    Ok(Outcome::new(c.cycles >= 130).label_if(c.clone_every != 0, "through-clones").label_if(c.cycles >= 1000, ">=1000-in-a-row"))
+}
+
 fn op() -> BoxedStrategy<Op> {
     prop_oneof![
         5 => any::<u16>().prop_map(Op::Get),
@@ -462,6 +517,14 @@ pub fn property() -> Property {
                 10_000_000,
                 |_| boxed((1u8..=4, proptest::collection::vec(op(), 1..40)).prop_map(|(limit, ops)| Case { limit, ops })),
                 test,
+            ),
+            prop_sub(
+                "long_runs",
+                "up to 3000 get_token requests in a row on one runner (limits 1..4, 0..limit-1 tokens held throughout, optionally every n-th request through a fresh clone, optionally overlapping lifetimes): with a free slot and nobody queued every single one must complete on its first poll; non-trivial = at least 130 requests in a row; distinct = hash of the case",
+                3_000,
+                100_000,
+                |_| boxed((1u8..=4, 0u8..=3, prop_oneof![3 => 130u16..=600, 1 => 1u16..=129, 1 => 600u16..=3000], prop_oneof![2 => Just(0u8), 1 => 1u8..=9], prop_oneof![1 => Just(0u8), 1 => 1u8..=5]).prop_map(|(limit, held, cycles, clone_every, overlap_every)| LongRun { limit, held, cycles, clone_every, overlap_every })),
+                test_long,
             ),
             stress,
         ],
